@@ -42,6 +42,69 @@ Section Assoc.
       + exact IH.
   Qed.
 
+  Lemma lookup_remove_neq k k' m : k' <> k -> lookup k' (remove k m) = lookup k' m.
+  Proof.
+    intro Hn. induction m as [|[k0 v0] m IH]; [reflexivity|]. unfold remove in *. cbn.
+    destruct (str_eqb k0 k) eqn:E; cbn.
+    - rewrite lookup_cons. apply str_eqb_spec in E. subst k0.
+      rewrite str_eqb_sym, (str_eqb_neq _ _ Hn). exact IH.
+    - rewrite !lookup_cons. now rewrite IH.
+  Qed.
+
+  Lemma lookup_insert_neq k k' v m : k' <> k -> lookup k' (insert k v m) = lookup k' m.
+  Proof.
+    intro Hn. unfold insert. rewrite lookup_cons, str_eqb_sym, (str_eqb_neq _ _ Hn).
+    now apply lookup_remove_neq.
+  Qed.
+
+  Lemma lookup_filter_notin k (f : str * V -> bool) m :
+    ~ In k (map fst m) -> lookup k (filter f m) = None.
+  Proof.
+    induction m as [|[k0 v0] m IH]; intro Hn; [reflexivity|]. cbn [filter].
+    cbn [map fst In] in Hn.
+    destruct (f (k0, v0)).
+    - rewrite lookup_cons. rewrite (str_eqb_neq k0 k) by tauto. apply IH. tauto.
+    - apply IH. tauto.
+  Qed.
+
+  Lemma lookup_filter_some k v (f : str * V -> bool) m :
+    lookup k m = Some v -> f (k, v) = true -> lookup k (filter f m) = Some v.
+  Proof.
+    induction m as [|[k0 v0] m IH]; intros L F; [discriminate|]. rewrite lookup_cons in L. cbn [filter].
+    destruct (str_eqb k0 k) eqn:E.
+    - injection L as ->. apply str_eqb_spec in E. subst k0. rewrite F, lookup_cons, str_eqb_refl. reflexivity.
+    - destruct (f (k0, v0)); [rewrite lookup_cons, E|]; auto.
+  Qed.
+
+  Lemma lookup_filter_none k (f : str * V -> bool) m :
+    lookup k m = None -> lookup k (filter f m) = None.
+  Proof.
+    induction m as [|[k0 v0] m IH]; intros L; [reflexivity|]. rewrite lookup_cons in L. cbn [filter].
+    destruct (str_eqb k0 k) eqn:E; [discriminate|].
+    destruct (f (k0, v0)); [rewrite lookup_cons, E|]; auto.
+  Qed.
+
+  Lemma in_fst_filter k (f : str * V -> bool) m : In k (map fst (filter f m)) -> In k (map fst m).
+  Proof.
+    induction m as [|[k0 v0] m IH]; cbn [filter]; [auto|]. destruct (f (k0, v0)); cbn [map fst In]; tauto.
+  Qed.
+
+  Lemma NoDup_fst_filter (f : str * V -> bool) m : NoDup (map fst m) -> NoDup (map fst (filter f m)).
+  Proof.
+    induction m as [|[k0 v0] m IH]; cbn [filter map fst]; intro Hn; [constructor|].
+    inversion Hn as [|? ? Hk Hm]; subst.
+    destruct (f (k0, v0)); cbn [map fst]; [|auto].
+    constructor; [|auto]. intro X. apply Hk. eapply in_fst_filter; eauto.
+  Qed.
+
+  Lemma NoDup_fst_insert k v m : NoDup (map fst m) -> NoDup (map fst (insert k v m)).
+  Proof.
+    intro Hn. unfold insert, remove. cbn [map fst]. constructor; [|now apply NoDup_fst_filter].
+    clear Hn. induction m as [|[k0 v0] m IH]; cbn [filter fst]; [auto|].
+    destruct (str_eqb k0 k) eqn:E; cbn [negb]; [exact IH|]. cbn [map fst In].
+    intros [->|X]; [now rewrite str_eqb_refl in E|auto].
+  Qed.
+
   Lemma lookup_insert_eq k v m : lookup k (insert k v m) = Some v.
   Proof. unfold insert. now rewrite lookup_cons, str_eqb_refl. Qed.
 
@@ -90,6 +153,8 @@ Section Refine.
   Variables main other : str.
   Variable user_mts : list str.
   Variable limit : N.
+  Variable skip_gc : bool.
+  Variable index_of : str -> option (list desc).
   Variable p : profile.
 
   Hypothesis Hneq : str_eqb main other = false.
@@ -214,11 +279,12 @@ Section Refine.
   Qed.
 
   (* ---- invariant of reachable registry states ---- *)
-  Definition sinv (st : store) : Prop :=
-    (forall d mt c, lookup d (t_mans st) = Some (mt, c) ->
-        d = H c /\ sub_ok subject_of p c /\ parse_mt mt = Some mt /\ len c <= limit) /\
-    (forall d c, lookup d (t_other st) = Some c -> d = H c).
-  Definition inv (g : reg) : Prop := sinv (store_of g).
+  Notation sinv := (sinv H parse_mt subject_of limit p).
+  Notation inv := (inv H parse_mt subject_of limit p).
+  Notation minv := (minv H parse_mt limit).
+
+  Lemma inv_minv g : inv g -> minv g.
+  Proof. intros [I _] d mt c L. destruct (I _ _ _ L) as (A & _ & B & C). auto. Qed.
 
   Lemma man_lookup_store g rf :
     man_lookup (store_of g) rf =
@@ -263,12 +329,12 @@ Section Refine.
   Qed.
 
   (* ---- manifestStore.Fetch ---- *)
-  Lemma man_fetch_hit g n d c :
-    inv g -> lookup (d_dg d) (g_mans g) = Some (d_mt d, c) -> len c = d_sz d ->
+  Lemma man_fetch_hit_m g n d c :
+    minv g -> lookup (d_dg d) (g_mans g) = Some (d_mt d, c) -> len c = d_sz d ->
     valid_digest (d_dg d) = true ->
     exists t, man_fetch parse_mt main S ex0 (g, n) d = ((g, n + 1), t, RBytes c).
   Proof.
-    intros [I _] L Hs V. destruct (I _ _ _ L) as (_ & _ & Pm & Hlim).
+    intros I L Hs V. destruct (I _ _ _ L) as (_ & Pm & Hlim).
     unfold man_fetch. rewrite hx_get_man.
     rewrite (man_resp_hit false g (d_dg d) (d_dg d) (d_mt d) c)
       by (rewrite man_lookup_digest, L; auto).
@@ -276,6 +342,12 @@ Section Refine.
     eexists. f_equal. rewrite vd_opt by exact V.
     destruct (p_clen p); cbn [orb opt_if]; proj; rewrite <- ?Hs, ?len_eqb_refl; reflexivity.
   Qed.
+
+  Lemma man_fetch_hit g n d c :
+    inv g -> lookup (d_dg d) (g_mans g) = Some (d_mt d, c) -> len c = d_sz d ->
+    valid_digest (d_dg d) = true ->
+    exists t, man_fetch parse_mt main S ex0 (g, n) d = ((g, n + 1), t, RBytes c).
+  Proof. intro Hi. apply man_fetch_hit_m. now apply inv_minv. Qed.
 
   Lemma man_fetch_miss g n d :
     lookup (d_dg d) (g_mans g) = None -> valid_digest (d_dg d) = true ->
@@ -287,15 +359,15 @@ Section Refine.
   Qed.
 
   (* ---- manifestStore.Resolve ---- *)
-  Lemma man_resolve_hit g n rs rf d mt c :
-    inv g -> resolve_ref main rs = Some rf ->
+  Lemma man_resolve_hit_m g n rs rf d mt c :
+    minv g -> resolve_ref main rs = Some rf ->
     man_lookup (store_of g) rf = Some (d, (mt, c)) ->
     (p_dighdr p = true \/ valid_digest rf = true) ->
     exists t, man_resolve H parse_mt main user_mts limit S ex0 (g, n) rs
               = ((g, n + 1), t, RDesc (mkDesc mt d (len c))).
   Proof.
-    intros [I _] ER L Hd. destruct (man_lookup_key _ _ _ _ L) as [Lk Hk].
-    destruct (I _ _ _ Lk) as (Ed & _ & Pm & Hlim).
+    intros I ER L Hd. destruct (man_lookup_key _ _ _ _ L) as [Lk Hk].
+    destruct (I _ _ _ Lk) as (Ed & Pm & Hlim).
     unfold man_resolve. rewrite ER, hx_head_man, (man_resp_hit true g rf d mt c L).
     simp. rewrite orb_true_r. cbn [opt_if].
     rewrite gen_desc_honest; eauto.
@@ -303,6 +375,14 @@ Section Refine.
     - destruct (valid_digest rf) eqn:V; auto. left. symmetry. auto.
     - destruct Hd as [->|V]; auto. right. left. split; auto. symmetry. auto.
   Qed.
+
+  Lemma man_resolve_hit g n rs rf d mt c :
+    inv g -> resolve_ref main rs = Some rf ->
+    man_lookup (store_of g) rf = Some (d, (mt, c)) ->
+    (p_dighdr p = true \/ valid_digest rf = true) ->
+    exists t, man_resolve H parse_mt main user_mts limit S ex0 (g, n) rs
+              = ((g, n + 1), t, RDesc (mkDesc mt d (len c))).
+  Proof. intro Hi. apply man_resolve_hit_m. now apply inv_minv. Qed.
 
   Lemma man_resolve_miss g n rs rf :
     resolve_ref main rs = Some rf -> man_lookup (store_of g) rf = None ->
@@ -313,15 +393,15 @@ Section Refine.
   Qed.
 
   (* ---- manifestStore.FetchReference ---- *)
-  Lemma man_fetchref_hit g n rs rf d mt c :
-    inv g -> resolve_ref main rs = Some rf ->
+  Lemma man_fetchref_hit_m g n rs rf d mt c :
+    minv g -> resolve_ref main rs = Some rf ->
     man_lookup (store_of g) rf = Some (d, (mt, c)) ->
     (p_clen p = true \/ p_dighdr p = true \/ valid_digest rf = true) ->
     exists n' t, man_fetchref H parse_mt main user_mts limit S ex0 (g, n) rs
               = ((g, n'), t, RDescBytes (mkDesc mt d (len c)) c).
   Proof.
-    intros Hi ER L Hd. pose proof Hi as [I _]. destruct (man_lookup_key _ _ _ _ L) as [Lk Hk].
-    destruct (I _ _ _ Lk) as (Ed & _ & Pm & Hlim).
+    intros Hi ER L Hd. pose proof Hi as I. destruct (man_lookup_key _ _ _ _ L) as [Lk Hk].
+    destruct (I _ _ _ Lk) as (Ed & Pm & Hlim).
     unfold man_fetchref. rewrite ER, hx_get_man, (man_resp_hit false g rf d mt c L).
     simp. rewrite orb_false_r.
     destruct (p_clen p) eqn:Ec; cbn [opt_if].
@@ -337,9 +417,17 @@ Section Refine.
       + destruct (valid_digest rf) eqn:V; auto. left. symmetry. auto.
       + destruct (p_dighdr p); auto. right. right. auto.
     - destruct Hd as [X|Hd]; [discriminate|].
-      destruct (man_resolve_hit g (n + 1) rs rf d mt c Hi ER L Hd) as [t E]. rewrite E.
+      destruct (man_resolve_hit_m g (n + 1) rs rf d mt c Hi ER L Hd) as [t E]. rewrite E.
       cbn [d_dg]. rewrite vd_opt by (subst d; apply Hvalid). eauto.
   Qed.
+
+  Lemma man_fetchref_hit g n rs rf d mt c :
+    inv g -> resolve_ref main rs = Some rf ->
+    man_lookup (store_of g) rf = Some (d, (mt, c)) ->
+    (p_clen p = true \/ p_dighdr p = true \/ valid_digest rf = true) ->
+    exists n' t, man_fetchref H parse_mt main user_mts limit S ex0 (g, n) rs
+              = ((g, n'), t, RDescBytes (mkDesc mt d (len c)) c).
+  Proof. intro Hi. apply man_fetchref_hit_m. now apply inv_minv. Qed.
 
   Lemma man_fetchref_miss g n rs rf :
     resolve_ref main rs = Some rf -> man_lookup (store_of g) rf = None ->
@@ -664,7 +752,7 @@ Section Refine.
     valid_ref rf = true -> len c = d_sz d -> H c = d_dg d -> sub_ok c -> rst_ok rst ->
     valid_digest (d_dg d) = true -> len c <= limit ->
     exists g' n' t,
-      man_push H subject_of main limit S ex0 (g, n) rst d c rf
+      man_push H parse_mt subject_of main user_mts limit skip_gc index_of S ex0 (g, n) rst d c rf
       = ((g', n'), rst_of (snd (put_manifest (store_of g) (d_dg d) (d_mt d) c rf)) rst c, t,
          snd (put_manifest (store_of g) (d_dg d) (d_mt d) c rf)) /\
       store_of g' = fst (put_manifest (store_of g) (d_dg d) (d_mt d) c rf).
@@ -685,7 +773,7 @@ Section Refine.
 
   Lemma man_push_bad g n rst d c :
     matches_desc H d c = false -> valid_digest (d_dg d) = true ->
-    exists g' n' t, man_push H subject_of main limit S ex0 (g, n) rst d c (d_dg d) = ((g', n'), rst, t, RErr EOther) /\
+    exists g' n' t, man_push H parse_mt subject_of main user_mts limit skip_gc index_of S ex0 (g, n) rst d c (d_dg d) = ((g', n'), rst, t, RErr EOther) /\
                     store_of g' = store_of g.
   Proof.
     intros M V. unfold man_push.
@@ -710,7 +798,7 @@ Section Refine.
     inv g -> rst_ok rst -> lookup (d_dg d) (g_mans g) = Some (d_mt d, c) -> len c = d_sz d ->
     valid_digest (d_dg d) = true ->
     exists g' n' rst' t,
-      man_delete H parse_mt subject_of main limit S ex0 (g, n) rst d = ((g', n'), rst', t, ROk) /\
+      man_delete H parse_mt subject_of main user_mts limit skip_gc index_of S ex0 (g, n) rst d = ((g', n'), rst', t, ROk) /\
       rst_ok rst' /\
       store_of g' = mkStore (g_blobs g) (remove (d_dg d) (g_mans g))
                       (filter (fun t => negb (str_eqb (snd t) (d_dg d))) (g_tags g)) (g_other g).
@@ -736,7 +824,7 @@ Section Refine.
 
   Lemma man_delete_miss g n rst d :
     lookup (d_dg d) (g_mans g) = None -> valid_digest (d_dg d) = true -> d_sz d <= limit ->
-    exists n' t, man_delete H parse_mt subject_of main limit S ex0 (g, n) rst d = ((g, n'), rst, t, RErr ENotFound).
+    exists n' t, man_delete H parse_mt subject_of main user_mts limit skip_gc index_of S ex0 (g, n) rst d = ((g, n'), rst, t, RErr ENotFound).
   Proof.
     intros L V Hl. assert (El : (limit <? d_sz d) = false) by (apply N.ltb_ge; exact Hl).
     unfold man_delete. destruct (indexable_del (d_mt d) && negb (rs_supported rst)).
@@ -773,7 +861,7 @@ Section Refine.
   (* ---------- Predecessors reflect the registry's state (Referrers API) ---------- *)
   Theorem predecessors_reflect g n rst d :
     p_referrers p = true -> rst <> RSUnsupported ->
-    predecessors main S ex0 (g, n) rst d
+    predecessors H parse_mt main user_mts limit index_of S ex0 (g, n) rst d
     = ((g, n + 1), RSSupported,
        [(req GET main (EReferrers (d_dg d)),
          mkResp 200 (Some mt_index) None None None false None
@@ -787,7 +875,7 @@ Section Refine.
   Notation wf_op := (wf_op H parse_mt subject_of main user_mts limit p).
   Notation wf_hist := (wf_hist H parse_mt subject_of main user_mts limit p).
   Notation spec_op' := (spec_op H subject_of main user_mts).
-  Notation run_op' := (run_op H parse_mt subject_of main other user_mts limit S ex0).
+  Notation run_op' := (run_op H parse_mt subject_of main other user_mts limit skip_gc index_of S ex0).
 
   Lemma matches_desc_true d c : matches_desc H d c = true -> len c = d_sz d /\ H c = d_dg d.
   Proof.
@@ -969,7 +1057,7 @@ Section Refine.
   Qed.
 
   (* ---------- histories ---------- *)
-  Notation run_ops' := (run_ops H parse_mt subject_of main other user_mts limit S ex0).
+  Notation run_ops' := (run_ops H parse_mt subject_of main other user_mts limit skip_gc index_of S ex0).
   Notation spec_run' := (spec_run H subject_of main user_mts).
 
   Lemma run_ops_refines os : forall g n rst,
@@ -995,7 +1083,7 @@ Section Refine.
     (forall d c, lookup d other_blobs = Some c -> d = H c) ->
     rst_ok rst ->
     wf_hist (mkStore [] [] [] other_blobs) os ->
-    run_history H parse_mt subject_of main other user_mts limit p None other_blobs rst os = (g, out) ->
+    run_history H parse_mt subject_of main other user_mts limit skip_gc index_of p None other_blobs rst os = (g, out) ->
     map snd out = snd (spec_run' (mkStore [] [] [] other_blobs) os) /\
     store_of g = fst (spec_run' (mkStore [] [] [] other_blobs) os).
   Proof.
@@ -1004,6 +1092,518 @@ Section Refine.
     { split; proj; [intros d mt c L; discriminate L|exact Ho]. }
     destruct (run_ops_refines os (reg0 other_blobs) 0 rst Hi Hr Hw) as (g' & n' & rst' & out' & E & Ro & St).
     rewrite E. intro X. injection X as <- <-. auto.
+  Qed.
+
+  (* ---------- the referrers tag schema: an indexed referrer is found again ---------- *)
+  (* Registry without the Referrers API (or a client told so).  The referrers tag of [subj] is
+     absent or points to an index the client wrote before (gen_index l).  After
+     updateReferrersIndex(subj, add r) -- what Push of a manifest with that subject does --
+     Predecessors over the tag schema lists the old referrers and r.  Hypotheses: JSON round
+     trip of an index, a registry the tag can be resolved against (Docker-Content-Digest or
+     Content-Length present: the known finding otherwise), no digest collision between the old
+     and the new index, the new index within MaxMetadataBytes. *)
+  (* JSON decoding of an index is the parameter index_of; the theorems ask it to invert gen_index on
+     the PARTICULAR indexes they read (a hypothesis for all lists would be unsatisfiable: gen_index
+     does not escape, so it is not injective on descriptors whose strings contain quotes) *)
+  Definition json_ok (l : list desc) : Prop := index_of (gen_index l) = Some l.
+  Definition json_ok_st (st : option (str * list desc)) : Prop :=
+    match st with Some (_, l) => json_ok l | None => True end.
+  Hypothesis Hidx_subj : forall l, subject_of (gen_index l) = Some None.
+  Hypothesis Hidx_mt : parse_mt mt_index = Some mt_index.
+
+  Lemma rfi_on_index_m g n tag od l :
+    minv g -> resolve_ref main tag = Some tag -> valid_digest tag = false ->
+    index_state g tag (Some (od, l)) -> (p_clen p = true \/ p_dighdr p = true) -> json_ok l ->
+    exists n' t, referrers_from_index H parse_mt main user_mts limit index_of S ex0 (g, n) tag
+                 = ((g, n'), t, ROk, Some (mkDesc mt_index od (len (gen_index l)), l)).
+  Proof.
+    intros Hi ER Vt [Lt Lm] Hp Hj. destruct (Hi _ _ _ Lm) as (Hd & _ & Hlim).
+    assert (ML : man_lookup (store_of g) tag = Some (od, (mt_index, gen_index l))).
+    { rewrite man_lookup_store. unfold man_digest. rewrite Vt, Lt, Lm. reflexivity. }
+    assert (Hp' : p_clen p = true \/ p_dighdr p = true \/ valid_digest tag = true) by tauto.
+    destruct (man_fetchref_hit_m g n tag tag od mt_index (gen_index l) Hi ER ML Hp') as (n' & t & E).
+    unfold referrers_from_index. rewrite E. cbn [d_sz d_dg].
+    assert (El : (limit <? len (gen_index l)) = false) by (apply N.ltb_ge; exact Hlim).
+    rewrite El, N.eqb_refl, <- Hd, str_eqb_refl, andb_false_r, Hj. eauto.
+  Qed.
+
+  Lemma rfi_on_index g n tag od l :
+    inv g -> resolve_ref main tag = Some tag -> valid_digest tag = false ->
+    index_state g tag (Some (od, l)) -> (p_clen p = true \/ p_dighdr p = true) -> json_ok l ->
+    exists n' t, referrers_from_index H parse_mt main user_mts limit index_of S ex0 (g, n) tag
+                 = ((g, n'), t, ROk, Some (mkDesc mt_index od (len (gen_index l)), l)).
+  Proof. intro Hi. apply rfi_on_index_m. now apply inv_minv. Qed.
+
+  Lemma rfi_no_index g n tag :
+    resolve_ref main tag = Some tag -> valid_digest tag = false -> index_state g tag None ->
+    exists t, referrers_from_index H parse_mt main user_mts limit index_of S ex0 (g, n) tag
+              = ((g, n + 1), t, RErr ENotFound, None).
+  Proof.
+    intros ER Vt Lt. cbn in Lt.
+    assert (ML : man_lookup (store_of g) tag = None).
+    { rewrite man_lookup_store. unfold man_digest. now rewrite Vt, Lt. }
+    destruct (man_fetchref_miss g n tag tag ER ML) as (t & E).
+    unfold referrers_from_index. rewrite E. eauto.
+  Qed.
+
+  (* the general step: whatever the change, if applyReferrerChanges yields [upd] the tag schema
+     afterwards lists [upd] *)
+  (* what an index update does to the registry: manifests only go away, except for the new index *)
+  Definition ts_step (g g' : reg) (j : str) (old : option (str * list desc)) : Prop :=
+    (forall d mt c, lookup d (g_mans g') = Some (mt, c) ->
+        lookup d (g_mans g) = Some (mt, c) \/ (d = H j /\ mt = mt_index /\ c = j)) /\
+    g_other g' = g_other g /\
+    (forall k, k <> H j -> (forall od l0, old = Some (od, l0) -> k <> od) ->
+               lookup k (g_mans g') = lookup k (g_mans g)).
+
+  Lemma ts_step_minv g g' j old : minv g -> len j <= limit -> ts_step g g' j old -> minv g'.
+  Proof.
+    intros I Hl [A _] d mt c L. destruct (A _ _ _ L) as [L0|(-> & -> & ->)]; [eauto|]. auto.
+  Qed.
+
+  Lemma ts_step_inv g g' l old : inv g -> len (gen_index l) <= limit -> ts_step g g' (gen_index l) old -> inv g'.
+  Proof.
+    intros [I Io] Hl (A & B & _). split.
+    - intros d mt c L. change (t_mans (store_of g')) with (g_mans g') in L.
+      destruct (A _ _ _ L) as [L0|(-> & -> & ->)]; [exact (I _ _ _ L0)|].
+      repeat split; auto. left. apply Hidx_subj.
+    - change (t_other (store_of g')) with (g_other g'). rewrite B. exact Io.
+  Qed.
+
+  (* Predecessors over the tag schema reads what the referrers tag points to *)
+  Lemma tag_schema_read g n subj st :
+    minv g -> valid_digest (d_dg subj) = true ->
+    let tag := ref_tag (d_dg subj) in
+    resolve_ref main tag = Some tag -> valid_digest tag = false ->
+    (p_clen p = true \/ p_dighdr p = true) ->
+    index_state g tag st -> json_ok_st st ->
+    exists n' t, tag_schema_referrers H parse_mt main user_mts limit index_of S ex0 (g, n) subj
+                 = ((g, n'), t, RDescs (clean_refs [] (match st with Some (_, l) => l | None => [] end))).
+  Proof.
+    intros Hi Vs tag ER Vt Hp Hst Hj. unfold tag_schema_referrers. rewrite Vs. cbn [negb]. fold tag.
+    destruct st as [[od l]|].
+    - destruct (rfi_on_index_m g n tag od l Hi ER Vt Hst Hp Hj) as (n3 & t3 & E3). rewrite E3. eauto.
+    - destruct (rfi_no_index g n tag ER Vt Hst) as (t3 & E3). rewrite E3. eauto.
+  Qed.
+
+  Lemma tag_schema_update_m g n rst subj old ch upd :
+    minv g -> rst_ok rst ->
+    valid_digest (d_dg subj) = true ->
+    let tag := ref_tag (d_dg subj) in
+    resolve_ref main tag = Some tag -> valid_digest tag = false ->
+    (p_clen p = true \/ p_dighdr p = true) ->
+    index_state g tag old -> json_ok_st old -> NoDup (map fst (g_tags g)) ->
+    apply_change (match old with Some (_, l) => l | None => [] end) (Some ch) = Some upd ->
+    len (gen_index upd) <= limit ->
+    (skip_gc = true \/ forall od l0, old = Some (od, l0) -> od <> H (gen_index upd)) ->
+    exists g' n' t,
+      update_referrers_index H parse_mt main user_mts limit skip_gc index_of S ex0 (g, n) rst subj ch
+      = ((g', n'), rst, t, ROk) /\
+      ts_step g g' (gen_index upd) old /\
+      index_state g' tag (if is_nil upd && negb skip_gc then None else Some (H (gen_index upd), upd)) /\
+      NoDup (map fst (g_tags g')).
+  Proof.
+    intros Hi Hr Vs tag ER Vt Hp Hst Hjo Huniq Hch Hlim Hcol.
+    set (j := gen_index upd).
+    assert (Hi0 : ts_step g g j old) by (repeat split; auto).
+    assert (Vtag : valid_ref tag = true) by (eapply resolve_ref_valid; eauto).
+    assert (Hrfi : exists n1 t1 res1 o1,
+               referrers_from_index H parse_mt main user_mts limit index_of S ex0 (g, n) tag = ((g, n1), t1, res1, o1) /\
+               match old with
+               | Some (od, l0) => res1 = ROk /\ o1 = Some (mkDesc mt_index od (len (gen_index l0)), l0)
+               | None => res1 = RErr ENotFound /\ o1 = None
+               end).
+    { destruct old as [[od l0]|].
+      - destruct (rfi_on_index_m g n tag od l0 Hi ER Vt Hst Hp Hjo) as (n1 & t1 & E). eauto 10.
+      - destruct (rfi_no_index g n tag ER Vt Hst) as (t1 & E). eauto 10. }
+    destruct Hrfi as (n1 & t1 & res1 & o1 & E1 & Hold).
+    assert (Sj : sub_ok j) by (left; apply Hidx_subj).
+    destruct (man_put_exec g n1 rst (mkDesc mt_index (H j) (len j)) j true tag Vtag eq_refl eq_refl Sj Hr (Hvalid j))
+      as (g2 & n2 & t2 & E2 & St2).
+    cbn [d_dg d_mt] in E2, St2. unfold put_manifest in E2, St2. rewrite Vt in E2, St2. cbn [fst snd] in E2, St2.
+    assert (Hrst : rst_of ROk rst j = rst).
+    { cbn [rst_of]. unfold rst_after, j. now rewrite Hidx_subj. }
+    rewrite Hrst in E2.
+    assert (Gm2 : g_mans g2 = insert (H j) (mt_index, j) (g_mans g)).
+    { change (g_mans g2) with (t_mans (store_of g2)). rewrite St2. reflexivity. }
+    assert (Hu2 : NoDup (map fst (g_tags g2))).
+    { change (g_tags g2) with (t_tags (store_of g2)). rewrite St2. cbn [t_tags]. now apply NoDup_fst_insert. }
+    assert (Hi2 : ts_step g g2 j old).
+    { split; [|split].
+      - intros d' mt' c' L. rewrite Gm2 in L.
+        apply lookup_insert_inv in L as [[-> X]|L]; [right|left; exact L]. injection X as -> ->. auto.
+      - change (g_other g2) with (t_other (store_of g2)). rewrite St2. reflexivity.
+      - intros k K1 _. rewrite Gm2. now apply lookup_insert_neq. }
+    assert (Lm2 : lookup (H j) (g_mans g2) = Some (mt_index, j)).
+    { change (g_mans g2) with (t_mans (store_of g2)). rewrite St2. cbn [t_mans]. apply lookup_insert_eq. }
+    assert (Lt2 : lookup tag (g_tags g2) = Some (H j)).
+    { change (g_tags g2) with (t_tags (store_of g2)). rewrite St2. cbn [t_tags]. apply lookup_insert_eq. }
+    unfold update_referrers_index. rewrite Vs. cbn [negb]. fold tag. rewrite E1.
+    destruct old as [[od l0]|].
+    - destruct Hold as [-> ->]. destruct Hst as [Lt Lm]. rewrite Hch. fold j.
+      destruct (Hi _ _ _ Lm) as (Hod & _).
+      destruct (negb (is_nil upd) || skip_gc) eqn:Epush.
+      + rewrite E2. destruct skip_gc eqn:Eg.
+        * exists g2, n2, (t1 ++ t2). split; [reflexivity|]. split; [exact Hi2|].
+          rewrite andb_false_r. split; [split; assumption|exact Hu2].
+        * destruct Hcol as [X|Hcol]; [discriminate|]. specialize (Hcol od l0 eq_refl).
+          assert (Lod : lookup od (g_mans g2) = Some (mt_index, gen_index l0)).
+          { change (g_mans g2) with (t_mans (store_of g2)). rewrite St2. cbn [t_mans].
+            rewrite lookup_insert_neq by exact Hcol. exact Lm. }
+          destruct (delete_man_hit g2 n2 (mkDesc mt_index od (len (gen_index l0))) _ Lod
+                      ltac:(cbn [d_dg]; rewrite Hod; apply Hvalid)) as (g3 & t3 & E3 & St3).
+          cbn [d_dg] in E3, St3. rewrite E3.
+          assert (Hi3 : ts_step g g3 j (Some (od, l0))).
+          { destruct Hi2 as (I2 & Io2 & Ik2). split; [|split].
+            - intros d' mt' c' L. change (g_mans g3) with (t_mans (store_of g3)) in L. rewrite St3 in L. cbn [t_mans] in L.
+              apply lookup_remove_inv in L as [L _]. eauto.
+            - change (g_other g3) with (t_other (store_of g3)). rewrite St3. cbn [t_other]. exact Io2.
+            - intros k K1 K2. change (g_mans g3) with (t_mans (store_of g3)). rewrite St3. cbn [t_mans].
+              rewrite lookup_remove_neq by (eapply K2; eauto). now apply Ik2. }
+          assert (Lm3 : lookup (H j) (g_mans g3) = Some (mt_index, j)).
+          { change (g_mans g3) with (t_mans (store_of g3)). rewrite St3. cbn [t_mans].
+            rewrite lookup_remove_neq by (intro X; apply Hcol; now symmetry). exact Lm2. }
+          assert (Lt3 : lookup tag (g_tags g3) = Some (H j)).
+          { change (g_tags g3) with (t_tags (store_of g3)). rewrite St3. cbn [t_tags].
+            change (g_tags g2) with (t_tags (store_of g2)). rewrite St2. cbn [t_tags]. unfold insert. cbn [filter snd].
+            rewrite (str_eqb_neq (H j) od) by (intro X; apply Hcol; now symmetry). cbn [negb].
+            rewrite lookup_cons. now rewrite str_eqb_refl. }
+          exists g3, (n2 + 1), (t1 ++ t2 ++ t3). split; [reflexivity|]. split; [exact Hi3|].
+          rewrite orb_false_r in Epush. apply negb_true_iff in Epush. rewrite Epush. cbn [andb].
+          split; [split; assumption|].
+          change (g_tags g3) with (t_tags (store_of g3)). rewrite St3. cbn [t_tags]. now apply NoDup_fst_filter.
+      + (* nothing left and the old index is garbage-collected: only the delete *)
+        apply orb_false_iff in Epush as [En Eg]. rewrite Eg. apply negb_false_iff in En.
+        assert (upd = []) as Eu by (destruct upd; [reflexivity|discriminate]).
+        destruct (delete_man_hit g n1 (mkDesc mt_index od (len (gen_index l0))) _ Lm
+                    ltac:(cbn [d_dg]; rewrite Hod; apply Hvalid)) as (g3 & t3 & E3 & St3).
+        cbn [d_dg] in E3, St3. rewrite E3.
+        assert (Hi3 : ts_step g g3 j (Some (od, l0))).
+        { split; [|split].
+          - intros d' mt' c' L. change (g_mans g3) with (t_mans (store_of g3)) in L. rewrite St3 in L. cbn [t_mans] in L.
+            apply lookup_remove_inv in L as [L _]. auto.
+          - change (g_other g3) with (t_other (store_of g3)). rewrite St3. reflexivity.
+          - intros k K1 K2. change (g_mans g3) with (t_mans (store_of g3)). rewrite St3. cbn [t_mans].
+            apply lookup_remove_neq. eapply K2; eauto. }
+        assert (Lt3 : lookup tag (g_tags g3) = None).
+        { change (g_tags g3) with (t_tags (store_of g3)). rewrite St3. cbn [t_tags].
+          clear - Lt Huniq. induction (g_tags g) as [|[k v] m IH]; [reflexivity|].
+          rewrite lookup_cons in Lt. cbn [map fst] in Huniq. inversion Huniq as [|? ? Hk Hm]; subst. cbn [filter snd].
+          destruct (str_eqb k tag) eqn:Ek.
+          - injection Lt as ->. rewrite str_eqb_refl. cbn [negb].
+            apply str_eqb_spec in Ek. subst k. now apply lookup_filter_notin.
+          - destruct (negb (str_eqb v od)); [rewrite lookup_cons, Ek|]; auto. }
+        exists g3, (n1 + 1), (t1 ++ [] ++ t3). split; [reflexivity|]. split; [exact Hi3|].
+        rewrite En. cbn [negb andb]. split; [exact Lt3|].
+        change (g_tags g3) with (t_tags (store_of g3)). rewrite St3. cbn [t_tags]. now apply NoDup_fst_filter.
+    - destruct Hold as [-> ->]. rewrite Hch. fold j.
+      destruct (negb (is_nil upd) || skip_gc) eqn:Epush.
+      + rewrite E2. exists g2, n2, (t1 ++ t2). split; [reflexivity|]. split; [exact Hi2|].
+        assert ((is_nil upd && negb skip_gc) = false) as -> by (destruct (is_nil upd), skip_gc; cbn in *; congruence).
+        split; [split; assumption|exact Hu2].
+      + apply orb_false_iff in Epush as [En Eg]. apply negb_false_iff in En.
+        assert (upd = []) as Eu by (destruct upd; [reflexivity|discriminate]).
+        exists g, n1, (t1 ++ []). split; [reflexivity|]. split; [exact Hi0|].
+        rewrite En, Eg. cbn [negb andb]. split; [exact Hst|exact Huniq].
+  Qed.
+
+  (* ---- lifted to every SEQUENCE of referrer changes of one subject (pushes and deletes of
+     manifests with that subject, in any order): the index evolves as applyReferrerChanges says ---- *)
+  Fixpoint run_changes (s : S) (rst : rstate) (subj : desc) (chs : list rchange) : S * list result :=
+    match chs with
+    | [] => (s, [])
+    | ch :: r =>
+        let '(s1, rst1, _, res) :=
+          update_referrers_index H parse_mt main user_mts limit skip_gc index_of S ex0 s rst subj ch in
+        let '(s2, rs) := run_changes s1 rst1 subj r in (s2, res :: rs)
+    end.
+
+  Definition ix_list (st : option (str * list desc)) : list desc :=
+    match st with Some (_, l) => l | None => [] end.
+  Definition ix_post (upd : list desc) : option (str * list desc) :=
+    if is_nil upd && negb skip_gc then None else Some (H (gen_index upd), upd).
+  (* the specification: what the referrers tag points to after the changes *)
+  Fixpoint spec_changes (st : option (str * list desc)) (chs : list rchange) : option (str * list desc) :=
+    match chs with
+    | [] => st
+    | ch :: r => match apply_change (ix_list st) (Some ch) with
+                 | Some upd => spec_changes (ix_post upd) r
+                 | None => spec_changes st r
+                 end
+    end.
+  (* side conditions, per step: the change is effective, the index read decodes, the new index fits
+     the limit and does not collide with the old one *)
+  Fixpoint changes_ok (st : option (str * list desc)) (chs : list rchange) : Prop :=
+    match chs with
+    | [] => True
+    | ch :: r => exists upd, apply_change (ix_list st) (Some ch) = Some upd /\
+                 json_ok_st st /\ len (gen_index upd) <= limit /\
+                 (skip_gc = true \/ forall od l0, st = Some (od, l0) -> od <> H (gen_index upd)) /\
+                 changes_ok (ix_post upd) r
+    end.
+
+  Theorem tag_schema_changes rst subj chs : forall g n st,
+    minv g -> rst_ok rst ->
+    valid_digest (d_dg subj) = true ->
+    let tag := ref_tag (d_dg subj) in
+    resolve_ref main tag = Some tag -> valid_digest tag = false ->
+    (p_clen p = true \/ p_dighdr p = true) ->
+    index_state g tag st -> NoDup (map fst (g_tags g)) ->
+    changes_ok st chs ->
+    exists g' n',
+      run_changes (g, n) rst subj chs = ((g', n'), map (fun _ => ROk) chs) /\
+      minv g' /\ index_state g' tag (spec_changes st chs) /\ NoDup (map fst (g_tags g')) /\
+      (json_ok_st (spec_changes st chs) ->
+       exists n'' t', tag_schema_referrers H parse_mt main user_mts limit index_of S ex0 (g', n') subj
+                      = ((g', n''), t', RDescs (clean_refs [] (ix_list (spec_changes st chs))))).
+  Proof.
+    induction chs as [|ch chs IH]; intros g n st Hi Hr Vs tag ER Vt Hp Hst Hu Hok.
+    - exists g, n. cbn [run_changes map spec_changes].
+      split; [reflexivity|]. split; [exact Hi|]. split; [exact Hst|]. split; [exact Hu|].
+      intro Hj. apply (tag_schema_read g n subj st Hi Vs ER Vt Hp Hst Hj).
+    - destruct Hok as (upd & Hch & Hjo & Hlim & Hcol & Hrest).
+      destruct (tag_schema_update_m g n rst subj st ch upd Hi Hr Vs ER Vt Hp Hst Hjo Hu Hch Hlim Hcol)
+        as (g1 & n1 & t1 & E1 & St1 & Ist1 & Hu1).
+      assert (Hi1 : minv g1) by exact (ts_step_minv _ _ _ _ Hi Hlim St1).
+      destruct (IH g1 n1 (ix_post upd) Hi1 Hr Vs ER Vt Hp Ist1 Hu1 Hrest) as (g' & n' & E & Hi' & Ist' & Hu' & R).
+      exists g', n'. cbn [run_changes map spec_changes]. rewrite E1, E, Hch.
+      split; [reflexivity|]. split; [exact Hi'|]. split; [exact Ist'|]. split; [exact Hu'|exact R].
+  Qed.
+
+  Lemma tag_schema_update g n rst subj old ch upd :
+    inv g -> rst_ok rst ->
+    valid_digest (d_dg subj) = true ->
+    let tag := ref_tag (d_dg subj) in
+    resolve_ref main tag = Some tag -> valid_digest tag = false ->
+    (p_clen p = true \/ p_dighdr p = true) ->
+    index_state g tag old -> json_ok_st old -> json_ok upd -> NoDup (map fst (g_tags g)) ->
+    apply_change (match old with Some (_, l) => l | None => [] end) (Some ch) = Some upd ->
+    len (gen_index upd) <= limit ->
+    (skip_gc = true \/ forall od l0, old = Some (od, l0) -> od <> H (gen_index upd)) ->
+    exists g' n' t,
+      update_referrers_index H parse_mt main user_mts limit skip_gc index_of S ex0 (g, n) rst subj ch
+      = ((g', n'), rst, t, ROk) /\
+      inv g' /\
+      exists n'' t', tag_schema_referrers H parse_mt main user_mts limit index_of S ex0 (g', n') subj
+                     = ((g', n''), t', RDescs (clean_refs [] upd)).
+  Proof.
+    intros Hi Hr Vs tag ER Vt Hp Hst Hjo Hju Huniq Hch Hlim Hcol.
+    destruct (tag_schema_update_m g n rst subj old ch upd (inv_minv _ Hi) Hr Vs ER Vt Hp Hst Hjo Huniq Hch Hlim Hcol)
+      as (g' & n' & t & E & St & Ist & _).
+    exists g', n', t. split; [exact E|]. split; [eapply ts_step_inv; eauto|].
+    assert (Hjp : json_ok_st (if is_nil upd && negb skip_gc then None else Some (H (gen_index upd), upd)))
+      by (destruct (is_nil upd && negb skip_gc); [exact I|exact Hju]).
+    destruct (tag_schema_read g' n' subj _ (ts_step_minv _ _ _ _ (inv_minv _ Hi) Hlim St) Vs ER Vt Hp Ist Hjp) as (n'' & t' & R).
+    exists n'', t'. rewrite R. destruct (is_nil upd) eqn:En; [|reflexivity].
+    destruct upd; [|discriminate]. destruct skip_gc; reflexivity.
+  Qed.
+
+  (* Push of a manifest with subject [subj]: referrer r is added *)
+  Theorem tag_schema_add_then_listed g n rst subj old r :
+    inv g -> rst_ok rst ->
+    valid_digest (d_dg subj) = true ->
+    let tag := ref_tag (d_dg subj) in
+    resolve_ref main tag = Some tag -> valid_digest tag = false ->
+    (p_clen p = true \/ p_dighdr p = true) ->
+    index_state g tag old -> json_ok_st old -> NoDup (map fst (g_tags g)) ->
+    let l := match old with Some (_, l) => l | None => [] end in
+    let upd := clean_refs [] l ++ [r] in
+    existsb (desc_eqb r) (clean_refs [] l) = false ->
+    len (gen_index upd) <= limit -> json_ok upd ->
+    (skip_gc = true \/ forall od l0, old = Some (od, l0) -> od <> H (gen_index upd)) ->
+    exists g' n' t,
+      update_referrers_index H parse_mt main user_mts limit skip_gc index_of S ex0 (g, n) rst subj (RAdd r)
+      = ((g', n'), rst, t, ROk) /\
+      inv g' /\
+      exists n'' t', tag_schema_referrers H parse_mt main user_mts limit index_of S ex0 (g', n') subj
+                     = ((g', n''), t', RDescs (clean_refs [] upd)).
+  Proof.
+    intros Hi Hr Vs tag ER Vt Hp Hst Hjo Hu l upd Hnew Hlim Hju Hcol.
+    apply (tag_schema_update g n rst subj old (RAdd r) upd); auto.
+    fold l. unfold apply_change. now rewrite Hnew.
+  Qed.
+
+  (* Delete of a manifest with subject [subj]: referrer r is removed; when nothing is left the
+     index and the tag go away (unless SkipReferrersGC keeps an empty index) *)
+  Theorem tag_schema_remove_then_absent g n rst subj od l r :
+    inv g -> rst_ok rst ->
+    valid_digest (d_dg subj) = true ->
+    let tag := ref_tag (d_dg subj) in
+    resolve_ref main tag = Some tag -> valid_digest tag = false ->
+    (p_clen p = true \/ p_dighdr p = true) ->
+    index_state g tag (Some (od, l)) -> json_ok l -> NoDup (map fst (g_tags g)) ->
+    let upd := filter (fun x => negb (desc_eqb r x)) (clean_refs [] l) in
+    existsb (desc_eqb r) (clean_refs [] l) = true ->
+    len (gen_index upd) <= limit -> json_ok upd ->
+    (skip_gc = true \/ od <> H (gen_index upd)) ->
+    exists g' n' t,
+      update_referrers_index H parse_mt main user_mts limit skip_gc index_of S ex0 (g, n) rst subj (RRemove r)
+      = ((g', n'), rst, t, ROk) /\
+      inv g' /\
+      exists n'' t', tag_schema_referrers H parse_mt main user_mts limit index_of S ex0 (g', n') subj
+                     = ((g', n''), t', RDescs (clean_refs [] upd)).
+  Proof.
+    intros Hi Hr Vs tag ER Vt Hp Hst Hjo Hu upd Hin Hlim Hju Hcol.
+    apply (tag_schema_update g n rst subj (Some (od, l)) (RRemove r) upd); auto.
+    - unfold apply_change. now rewrite Hin.
+    - destruct Hcol as [X|X]; [now left|right]. intros od' l' Y. injection Y as <- <-. exact X.
+  Qed.
+
+  (* ---------- operation level: Push of a manifest with a subject to a registry WITHOUT the
+     Referrers API, then Predecessors of the subject ---------- *)
+  Lemma man_put_noapi g n rst d c :
+    p_referrers p = false -> len c = d_sz d -> H c = d_dg d -> valid_digest (d_dg d) = true ->
+    exists g' n' t,
+      man_put main S ex0 (g, n) rst d c true (d_dg d) = ((g', n'), rst, t, ROk) /\
+      store_of g' = with_mans (store_of g) (insert (d_dg d) (d_mt d, c) (g_mans g)).
+  Proof.
+    intros Pr Hs Hh V. unfold man_put.
+    rewrite Hs, N.eqb_refl. cbn [negb]. rewrite andb_false_r.
+    unfold cexch, handle. proj. rewrite str_eqb_refl. proj.
+    rewrite <- Hs, N.eqb_refl. cbn [negb]. rewrite Hh.
+    rewrite V. cbn [negb andb orb]. rewrite str_eqb_refl. cbn [negb]. simp. rewrite Pr. cbn [nstr].
+    rewrite vd_opt by exact V.
+    eexists _, _, _. split; reflexivity.
+  Qed.
+
+  Theorem push_subject_then_predecessors g n rst d c sj old :
+    minv g -> p_referrers p = false -> rst <> RSSupported ->
+    is_manifest user_mts d = true -> indexable (d_mt d) = true ->
+    len c = d_sz d -> H c = d_dg d -> valid_digest (d_dg d) = true ->
+    parse_mt (d_mt d) = Some (d_mt d) -> len c <= limit ->
+    subject_of c = Some (Some sj) -> valid_digest (d_dg sj) = true ->
+    let tag := ref_tag (d_dg sj) in
+    resolve_ref main tag = Some tag -> valid_digest tag = false ->
+    (p_clen p = true \/ p_dighdr p = true) ->
+    index_state g tag old -> json_ok_st old -> NoDup (map fst (g_tags g)) ->
+    (forall od l0, old = Some (od, l0) -> od <> d_dg d) ->
+    let l := match old with Some (_, l) => l | None => [] end in
+    let upd := clean_refs [] l ++ [d] in
+    existsb (desc_eqb d) (clean_refs [] l) = false ->
+    len (gen_index upd) <= limit -> json_ok upd ->
+    (skip_gc = true \/ forall od l0, old = Some (od, l0) -> od <> H (gen_index upd)) ->
+    exists g' n' t,
+      run_op' (g, n) rst (OPush d c) = ((g', n'), RSUnsupported, t, ROk) /\
+      minv g' /\
+      index_state g' tag (Some (H (gen_index upd), upd)) /\ NoDup (map fst (g_tags g')) /\
+      (d_dg d <> H (gen_index upd) -> lookup (d_dg d) (g_mans g') = Some (d_mt d, c)) /\
+      exists n'' t', run_op' (g', n') RSUnsupported (OPreds sj)
+                     = ((g', n''), RSUnsupported, t', RDescs (clean_refs [] upd)).
+  Proof.
+    intros Hi Pr Hrs Him Hix Hs Hh V Pm Hl Sj Vs tag ER Vt Hp Hst Hjo Hu Hod l upd Hnew Hlim Hju Hcol.
+    destruct (man_put_noapi g n rst d c Pr Hs Hh V) as (g1 & n1 & t1 & E1 & St1).
+    assert (Gm : g_mans g1 = insert (d_dg d) (d_mt d, c) (g_mans g)).
+    { change (g_mans g1) with (t_mans (store_of g1)). rewrite St1. reflexivity. }
+    assert (Gt : g_tags g1 = g_tags g).
+    { change (g_tags g1) with (t_tags (store_of g1)). rewrite St1. reflexivity. }
+    assert (Hi1 : minv g1).
+    { intros d' mt' c' L. rewrite Gm in L. apply lookup_insert_inv in L as [[-> X]|L]; [|eauto].
+      injection X as -> ->. auto. }
+    assert (Hst1 : index_state g1 tag old).
+    { destruct old as [[od l0]|]; cbn [index_state] in *; rewrite Gt; [|exact Hst].
+      destruct Hst as [Lt Lm]. split; [exact Lt|]. rewrite Gm, lookup_insert_neq by (eapply Hod; eauto). exact Lm. }
+    assert (Hu1 : NoDup (map fst (g_tags g1))) by (rewrite Gt; exact Hu).
+    assert (Ers : rs_set rst false = RSUnsupported) by (destruct rst; cbn; congruence).
+    assert (Hr1 : rst_ok RSUnsupported) by (right; exact Pr).
+    assert (Hch : apply_change (match old with Some (_, l) => l | None => [] end) (Some (RAdd d)) = Some upd).
+    { fold l. unfold apply_change. now rewrite Hnew. }
+    destruct (tag_schema_update_m g1 n1 RSUnsupported sj old (RAdd d) upd Hi1 Hr1 Vs ER Vt Hp Hst1 Hjo Hu1 Hch Hlim Hcol)
+      as (g' & n' & t2 & E2 & St2 & Ist & Hu').
+    assert (Hi' : minv g') by (eapply ts_step_minv; eauto).
+    assert (Nn : is_nil upd = false) by (unfold upd; destruct (clean_refs [] l); reflexivity).
+    rewrite Nn in Ist. cbn [andb] in Ist.
+    destruct (tag_schema_read g' n' sj _ Hi' Vs ER Vt Hp Ist Hju) as (n'' & t' & R).
+    exists g', n', (t1 ++ t2). split; [|split; [|split; [exact Ist|split; [exact Hu'|split]]]].
+    - cbn [run_op]. rewrite Him. unfold man_push. rewrite Hix.
+      assert (Ns : rs_supported rst = false) by (destruct rst; cbn; congruence).
+      rewrite Ns. cbn [negb andb].
+      assert (El : (limit <? d_sz d) = false) by (apply N.ltb_ge; rewrite <- Hs; exact Hl).
+      rewrite El, Hs, N.eqb_refl, Hh, str_eqb_refl. cbn [negb orb]. rewrite E1, Ns, Sj, Ers, E2. reflexivity.
+    - exact Hi'.
+    - intro Hne. destruct St2 as (_ & _ & K). rewrite K; [rewrite Gm; apply lookup_insert_eq|exact Hne|].
+      intros od l0 Y. intro X. eapply Hod; eauto.
+    - exists n'', t'. cbn [run_op]. unfold predecessors. rewrite R. reflexivity.
+  Qed.
+
+  (* pingReferrers against a registry without the API *)
+  Lemma ping_noapi g n rst :
+    p_referrers p = false -> rst <> RSSupported ->
+    exists n' t, ping_referrers main S ex0 (g, n) rst = ((g, n'), RSUnsupported, t, Some false).
+  Proof.
+    intros Pr Hrs. destruct rst; [|congruence|cbn [ping_referrers]; eauto].
+    unfold ping_referrers, cexch, handle, req. proj. rewrite str_eqb_refl. proj. rewrite Pr. simp.
+    assert (str_eqb [] name_unknown = false) as -> by (vm_compute; reflexivity).
+    cbn [rs_set]. eauto.
+  Qed.
+
+  (* ... and Delete of a stored manifest with a subject: the referrer leaves the index first, then
+     the manifest is deleted; Predecessors no longer lists it *)
+  Theorem delete_subject_then_predecessors g n rst d c sj od l :
+    minv g -> p_referrers p = false -> rst <> RSSupported ->
+    is_manifest user_mts d = true -> indexable_del (d_mt d) = true ->
+    lookup (d_dg d) (g_mans g) = Some (d_mt d, c) -> len c = d_sz d -> valid_digest (d_dg d) = true ->
+    subject_of c = Some (Some sj) -> valid_digest (d_dg sj) = true ->
+    let tag := ref_tag (d_dg sj) in
+    resolve_ref main tag = Some tag -> valid_digest tag = false ->
+    (p_clen p = true \/ p_dighdr p = true) ->
+    index_state g tag (Some (od, l)) -> json_ok l -> NoDup (map fst (g_tags g)) ->
+    od <> d_dg d ->
+    let upd := filter (fun x => negb (desc_eqb d x)) (clean_refs [] l) in
+    existsb (desc_eqb d) (clean_refs [] l) = true ->
+    len (gen_index upd) <= limit -> json_ok upd ->
+    H (gen_index upd) <> d_dg d ->
+    (skip_gc = true \/ od <> H (gen_index upd)) ->
+    exists g' n' t,
+      run_op' (g, n) rst (ODelete d) = ((g', n'), RSUnsupported, t, ROk) /\
+      minv g' /\ lookup (d_dg d) (g_mans g') = None /\
+      index_state g' tag (if is_nil upd && negb skip_gc then None else Some (H (gen_index upd), upd)) /\
+      NoDup (map fst (g_tags g')) /\
+      exists n'' t', run_op' (g', n') RSUnsupported (OPreds sj)
+                     = ((g', n''), RSUnsupported, t', RDescs (clean_refs [] upd)).
+  Proof.
+    intros Hi Pr Hrs Him Hix L Hs V Sj Vs tag ER Vt Hp Hst Hjo Hu Hod upd Hin Hlim Hju Hj Hcol.
+    destruct (Hi _ _ _ L) as (Hh & Pm & Hl).
+    destruct (man_fetch_hit_m g n d c Hi L Hs V) as (t1 & E1).
+    destruct (ping_noapi g (n + 1) rst Pr Hrs) as (n2 & t2 & E2).
+    assert (Hr1 : rst_ok RSUnsupported) by (right; exact Pr).
+    assert (Hch : apply_change l (Some (RRemove d)) = Some upd).
+    { unfold apply_change. now rewrite Hin. }
+    assert (Hcol' : skip_gc = true \/ forall od' l0, Some (od, l) = Some (od', l0) -> od' <> H (gen_index upd)).
+    { destruct Hcol as [X|X]; [now left|right]. intros od' l' Y. injection Y as <- <-. exact X. }
+    destruct (tag_schema_update_m g n2 RSUnsupported sj (Some (od, l)) (RRemove d) upd Hi Hr1 Vs ER Vt Hp Hst Hjo Hu Hch Hlim Hcol')
+      as (g3 & n3 & t3 & E3 & St3 & Ist & Hu3).
+    assert (Hi3 : minv g3) by exact (ts_step_minv _ _ _ _ Hi Hlim St3).
+    destruct St3 as (_ & _ & K3).
+    assert (L3 : lookup (d_dg d) (g_mans g3) = Some (d_mt d, c)).
+    { rewrite K3; [exact L|auto|]. intros od' l' Y. injection Y as <- <-. auto. }
+    destruct (delete_man_hit g3 n3 d _ L3 V) as (g4 & t4 & E4 & St4).
+    assert (Gm4 : g_mans g4 = remove (d_dg d) (g_mans g3)).
+    { change (g_mans g4) with (t_mans (store_of g4)). rewrite St4. reflexivity. }
+    assert (Gt4 : g_tags g4 = filter (fun t => negb (str_eqb (snd t) (d_dg d))) (g_tags g3)).
+    { change (g_tags g4) with (t_tags (store_of g4)). rewrite St4. reflexivity. }
+    assert (Hi4 : minv g4).
+    { intros d' mt' c' L'. rewrite Gm4 in L'. apply lookup_remove_inv in L' as [L' _]. eauto. }
+    assert (Ist4 : index_state g4 tag (if is_nil upd && negb skip_gc then None else Some (H (gen_index upd), upd))).
+    { destruct (is_nil upd && negb skip_gc); cbn [index_state] in *; rewrite Gt4.
+      - now apply lookup_filter_none.
+      - destruct Ist as [Lt Lm]. split.
+        + apply lookup_filter_some; [exact Lt|]. cbn [snd]. now rewrite (str_eqb_neq _ _ Hj).
+        + rewrite Gm4, lookup_remove_neq by exact Hj. exact Lm. }
+    assert (Hjp : json_ok_st (if is_nil upd && negb skip_gc then None else Some (H (gen_index upd), upd)))
+      by (destruct (is_nil upd && negb skip_gc); [exact I|exact Hju]).
+    destruct (tag_schema_read g4 (n3 + 1) sj _ Hi4 Vs ER Vt Hp Ist4 Hjp) as (n'' & t' & R).
+    exists g4, (n3 + 1), (t1 ++ t2 ++ t3 ++ t4).
+    split; [|split; [exact Hi4|split; [|split; [exact Ist4|split; [rewrite Gt4; now apply NoDup_fst_filter|]]]]].
+    - cbn [run_op]. rewrite Him. unfold man_delete. rewrite Hix.
+      assert (Ns : rs_supported rst = false) by (destruct rst; cbn; congruence).
+      rewrite Ns. cbn [negb andb].
+      assert (El : (limit <? d_sz d) = false) by (apply N.ltb_ge; rewrite <- Hs; exact Hl).
+      rewrite El, E1, Hs, N.eqb_refl, <- Hh, str_eqb_refl. cbn [negb orb]. rewrite Sj.
+      rewrite E2, E3, E4. reflexivity.
+    - rewrite Gm4. apply lookup_remove_eq.
+    - exists n'', t'. cbn [run_op]. unfold predecessors. rewrite R. f_equal. f_equal.
+      destruct (is_nil upd) eqn:En; [|reflexivity].
+      destruct upd; [|discriminate]. destruct skip_gc; reflexivity.
   Qed.
 
   (* ---------- the digest-header hypothesis is exactly the failing mechanism ---------- *)
@@ -1085,17 +1685,18 @@ Qed.
 
 (* every request of every history against the registry model is allowed, also when one
    response is corrupted in any field but the status *)
-Theorem run_history_allowed H parse_mt subject_of main other user_mts limit p kor other_blobs rst os g out :
+Theorem run_history_allowed H parse_mt subject_of main other user_mts limit skip_gc index_of p kor other_blobs rst os g out :
   valid_repository main = true -> valid_repository other = true ->
+  (forall c, valid_digest (H c) = true) ->
   no_status_corruption kor -> Forall op_ok os ->
-  run_history H parse_mt subject_of main other user_mts limit p kor other_blobs rst os = (g, out) ->
+  run_history H parse_mt subject_of main other user_mts limit skip_gc index_of p kor other_blobs rst os = (g, out) ->
   Forall (fun tr => Forall (fun qr => allowed (fst qr) = true) (fst tr)) out.
 Proof.
-  intros Vm Vo Hk Hok. unfold run_history.
-  destruct (run_ops _ _ _ _ _ _ _ _ _ _ rst os) as [[s rst'] out'] eqn:E.
+  intros Vm Vo Hv Hk Hok. unfold run_history.
+  destruct (run_ops _ _ _ _ _ _ _ _ _ _ _ _ rst os) as [[s rst'] out'] eqn:E.
   intro X. injection X as _ <-.
-  eapply (run_ops_allowed H parse_mt subject_of main other user_mts limit (reg * N)
-            (cexch H subject_of main other p kor) Vm Vo (registry_loc_ok _ _ _ _ _ _ Vm Hk)); eauto.
+  eapply (run_ops_allowed H parse_mt subject_of main other user_mts limit skip_gc index_of (reg * N)
+            (cexch H subject_of main other p kor) Vm Vo (registry_loc_ok _ _ _ _ _ _ Vm Hk) Hv); eauto.
 Qed.
 
 (* ---------- the known limitation, as a witness ---------- *)
@@ -1103,13 +1704,14 @@ Qed.
    PushReference under a tag, Resolve of that tag fails although the store holds it. *)
 Definition w_H (_ : str) : str := zero_digest.
 Definition w_limit : N := 4194304.
+Definition w_index_of (_ : str) : option (list desc) := Some [].
 Definition w_profile := mkProfile false true true false false.
 Definition w_content := b "{}".
 Definition w_desc := mkDesc mt_oci_manifest zero_digest 2.
 Definition w_ops := [OPushRef w_desc w_content (b "v1"); OResolve (b "v1")].
 
 Lemma resolve_tag_without_digest_header_refuted :
-  map snd (snd (run_history w_H (fun s => Some s) (fun _ => Some None) (b "app") (b "src") [] w_limit
+  map snd (snd (run_history w_H (fun s => Some s) (fun _ => Some None) (b "app") (b "src") [] w_limit false w_index_of
                             w_profile None [] RSUnknown w_ops))
   = [ROk; RErr EOther] /\
   snd (spec_run w_H (fun _ => Some None) (b "app") [] (mkStore [] [] [] []) w_ops)
@@ -1191,7 +1793,7 @@ Definition cover_ops (p : profile) : list op :=
 
 Definition covered (p : profile) (rst : rstate) : bool :=
   results_eqb
-    (map snd (snd (run_history w_H (fun s => Some s) ex_subject (b "app") (b "src") [] w_limit p None
+    (map snd (snd (run_history w_H (fun s => Some s) ex_subject (b "app") (b "src") [] w_limit false w_index_of p None
                                [(zero_digest, ex_blob)] rst (cover_ops p))))
     (snd (spec_run w_H ex_subject (b "app") [] (mkStore [] [] [] [(zero_digest, ex_blob)]) (cover_ops p))).
 
@@ -1200,3 +1802,82 @@ Lemma all_profiles_covered :
   forallb (fun p => covered p RSUnknown && covered p RSSupported
                     && (p_referrers p || covered p RSUnsupported)) all_profiles = true.
 Proof. vm_compute. split; reflexivity. Qed.
+
+(* ---------- the referrers tag schema end to end, on a concrete registry without the API ---------- *)
+Definition hex_digit (n : N) : N := if n <? 10 then 48 + n else 87 + n.
+(* a toy hash: the hex of the last 32 bytes (enough to tell the few contents below apart) *)
+Definition toy_H (c : str) : str :=
+  b "sha256:" ++ firstn 64 (flat_map (fun x => [hex_digit (x / 16); hex_digit (x mod 16)]) (rev c) ++ repeat 48 64).
+Definition ts_m0 := b "{0}".
+Definition ts_m1 := b "{1}".
+Definition ts_d0 := mkDesc mt_oci_manifest (toy_H ts_m0) 3.
+Definition ts_d1 := mkDesc mt_oci_manifest (toy_H ts_m1) 3.
+Definition ts_subject (c : str) : option (option desc) := if str_eqb c ts_m1 then Some (Some ts_d0) else Some None.
+Definition ts_index_of (c : str) : option (list desc) := if str_eqb c (gen_index [ts_d1]) then Some [ts_d1] else Some [].
+Definition ts_profile := mkProfile true false true false false.     (* no Referrers API *)
+Definition ts_ops := [OPush ts_d0 ts_m0; OPreds ts_d0; OPush ts_d1 ts_m1; OPreds ts_d0; OResolve (ref_tag (toy_H ts_m0));
+                      ODelete ts_d1; OPreds ts_d0; OResolve (ref_tag (toy_H ts_m0))].
+
+Lemma tag_schema_example :
+  map snd (snd (run_history toy_H (fun s => Some s) ts_subject (b "app") (b "src") [] w_limit false ts_index_of
+                            ts_profile None [] RSUnknown ts_ops))
+  = [ROk; RDescs []; ROk; RDescs [ts_d1];
+     RDesc (mkDesc mt_index (toy_H (gen_index [ts_d1])) (len (gen_index [ts_d1])));
+     ROk; RDescs []; RErr ENotFound] /\
+  ts_index_of (gen_index [ts_d1]) = Some [ts_d1] /\ ts_subject (gen_index [ts_d1]) = Some None /\
+  gen_index [ts_d1] = b "{""schemaVersion"":2,""mediaType"":""application/vnd.oci.image.index.v1+json"",""manifests"":[{""mediaType"":""application/vnd.oci.image.manifest.v1+json"",""digest"":""sha256:7d317b0000000000000000000000000000000000000000000000000000000000"",""size"":3}]}".
+Proof. vm_compute. repeat split; reflexivity. Qed.
+
+(* ---------- the hypotheses of the operation-level tag-schema theorems are satisfiable ---------- *)
+Definition sat_c := b "{1}".
+Definition sat_sj := mkDesc mt_oci_manifest zero_digest 3.
+Definition sat_d := mkDesc mt_oci_manifest zero_digest 3.
+Definition sat_subject (c : str) : option (option desc) := if str_eqb c sat_c then Some (Some sat_sj) else Some None.
+Definition sat_index_of (c : str) : option (list desc) := if str_eqb c (gen_index [sat_d]) then Some [sat_d] else Some [].
+
+Lemma push_subject_satisfiable :
+  exists g' n' t,
+    run_op w_H (fun s => Some s) sat_subject (b "app") (b "src") [] w_limit false sat_index_of (reg * N)
+           (cexch w_H sat_subject (b "app") (b "src") ts_profile None) (reg0 [], 0) RSUnknown (OPush sat_d sat_c)
+    = ((g', n'), RSUnsupported, t, ROk) /\
+    minv w_H (fun s => Some s) w_limit g' /\
+    index_state g' (ref_tag zero_digest) (Some (w_H (gen_index [sat_d]), [sat_d])) /\
+    exists n'' t',
+      run_op w_H (fun s => Some s) sat_subject (b "app") (b "src") [] w_limit false sat_index_of (reg * N)
+             (cexch w_H sat_subject (b "app") (b "src") ts_profile None) (g', n') RSUnsupported (OPreds sat_sj)
+      = ((g', n''), RSUnsupported, t', RDescs [sat_d]).
+Proof.
+  destruct (push_subject_then_predecessors w_H (fun s => Some s) sat_subject (b "app") (b "src") [] w_limit false sat_index_of ts_profile
+              ltac:(intro c; vm_compute; reflexivity)
+              ltac:(intro l; reflexivity)
+              ltac:(reflexivity)
+              (reg0 []) 0 RSUnknown sat_d sat_c sat_sj None)
+    as (g' & n' & t & E & Hi & Ist & _ & _ & R);
+    [ intros ? ? ? L; discriminate L | try (vm_compute; reflexivity); try discriminate .. | ].
+  - right. reflexivity.
+  - constructor.
+  - right. discriminate.
+  - exists g', n', t. split; [exact E|]. split; [exact Hi|]. split; [exact Ist|]. exact R.
+Qed.
+
+(* the side conditions of tag_schema_changes are satisfiable: two referrers added, the first removed *)
+Definition sat_a := mkDesc mt_oci_manifest zero_digest 3.
+Definition sat_b := mkDesc mt_oci_manifest zero_digest 4.
+Definition sat_changes := [RAdd sat_a; RAdd sat_b; RRemove sat_a].
+Definition sat_index_of2 (c : str) : option (list desc) :=
+  if str_eqb c (gen_index [sat_a]) then Some [sat_a]
+  else if str_eqb c (gen_index [sat_a; sat_b]) then Some [sat_a; sat_b]
+  else if str_eqb c (gen_index [sat_b]) then Some [sat_b] else Some [].
+Lemma tag_schema_changes_satisfiable :
+  changes_ok w_H w_limit true sat_index_of2 None sat_changes /\
+  spec_changes w_H true None sat_changes = Some (w_H (gen_index [sat_b]), [sat_b]) /\
+  json_ok_st sat_index_of2 (spec_changes w_H true None sat_changes).
+Proof.
+  split; [|split; vm_compute; reflexivity].
+  unfold sat_changes. cbn [changes_ok].
+  exists [sat_a]. split; [reflexivity|]. split; [exact I|]. split; [vm_compute; discriminate|]. split; [now left|].
+  exists [sat_a; sat_b]. split; [vm_compute; reflexivity|]. split; [vm_compute; reflexivity|].
+  split; [vm_compute; discriminate|]. split; [now left|].
+  exists [sat_b]. split; [vm_compute; reflexivity|]. split; [vm_compute; reflexivity|].
+  split; [vm_compute; discriminate|]. split; [now left|]. exact I.
+Qed.
